@@ -1100,4 +1100,4 @@ func c17ProbeVariant(env *c17Env) bool {
 	return !passed
 }
 
-func init() { register(&Prop{ID: "C17", Gen: c17Gen, Run: c17Run}) }
+func init() { register(&Prop{ID: "C17", Gen: c17Gen, Run: c17Run, Child: c17Child}) }
